@@ -58,9 +58,20 @@ fn calls<'a>(c: &'a Case, enc: &'a Enc) -> Vec<(&'static str, Call<'a>)> {
         jsonb::LazyValue::Value(to_value(&a.doc2)).write_to_vec(b);
         Ok(())
     })));
-    v.push(("build_array", Box::new(move |b, _| jsonb::build_array(enc.parts.iter().map(|x| x.as_slice()), b))));
+    v.push(("build_array", Box::new(move |b, _| {
+        if a.update {
+            // an iterator whose size_hint is not exact
+            jsonb::build_array(enc.parts.iter().map(|x| x.as_slice()).filter(|x| !x.is_empty()), b)
+        } else {
+            jsonb::build_array(enc.parts.iter().map(|x| x.as_slice()), b)
+        }
+    })));
     v.push(("build_object", Box::new(move |b, _| {
-        jsonb::build_object(enc.obj_parts.iter().map(|(k, x)| (k.as_str(), x.as_slice())), b)
+        if a.update {
+            jsonb::build_object(enc.obj_parts.iter().map(|(k, x)| (k.as_str(), x.as_slice())).filter(|(_, x)| !x.is_empty()), b)
+        } else {
+            jsonb::build_object(enc.obj_parts.iter().map(|(k, x)| (k.as_str(), x.as_slice())), b)
+        }
     })));
     v.push(("concat", Box::new(move |b, _| jsonb::concat(&enc.doc, &enc.doc2, b))));
     v.push(("delete_by_name", Box::new(move |b, _| jsonb::delete_by_name(&enc.doc, &a.name, b))));
